@@ -50,12 +50,13 @@ type Ctx struct {
 }
 
 type Finding struct {
-	Property   string `json:"property"`
-	Obligation string `json:"obligation"`
-	What       string `json:"what"`
-	Witness    string `json:"witness,omitempty"`
-	Status     string `json:"status"` // open | fixed
-	Commit     string `json:"commit,omitempty"`
+	Property   string   `json:"property"`
+	Obligation string   `json:"obligation"`
+	What       string   `json:"what"`
+	Witness    string   `json:"witness,omitempty"`
+	Status     string   `json:"status"` // open | fixed
+	Commit     string   `json:"commit,omitempty"`
+	Also       []string `json:"also,omitempty"` // further properties whose checks contain the same obligation
 }
 
 func LoadFindings(path string) ([]Finding, error) {
@@ -135,7 +136,13 @@ func Run(ctx *Ctx, p *Property, level string) int {
 	}
 	open := map[string]Finding{}
 	for _, f := range findings {
-		if f.Property == p.ID && f.Status == "open" {
+		applies := f.Property == p.ID
+		for _, a := range f.Also {
+			if a == p.ID {
+				applies = true
+			}
+		}
+		if applies && f.Status == "open" {
 			open[f.Obligation] = f
 		}
 	}
@@ -167,6 +174,12 @@ func Run(ctx *Ctx, p *Property, level string) int {
 		}
 	}
 	sort.Strings(names)
+	// slow obligations are the unstable ones: report them (never as violations)
+	for _, r := range all {
+		if r.Status == "unsat" && r.Millis > 4000 && r.Kind != "vacuity" {
+			fmt.Printf("SLOW: %s took %d ms (%s)\n", r.ID, r.Millis, r.Backend)
+		}
+	}
 	funcs := map[string]bool{}
 	var oblList []map[string]interface{}
 	total, discharged, knownN := 0, 0, 0
